@@ -210,3 +210,112 @@ func lemmaPTSMarkerBits(a, b []byte) bool { return ExtractTime(a) == ExtractTime
 //@   requires forall j in 0..5 :: a[j]&specPTSValueMask(j) == b[j]&specPTSValueMask(j)
 //@   ensures result
 //@   modifies nothing
+
+// ---------------------------------------------------------------- C13: CRC-32/MPEG-2
+
+// Textbook MSB-first CRC-32/MPEG-2 (polynomial 0x04C11DB7, initial value 0xFFFFFFFF, no
+// reflection, no final XOR), written from the parameters in the property statement. The
+// implementation uses the augmented-message form with a pre-conditioned register instead.
+func specCRCBit(c uint32, bit uint32) uint32 {
+	if (c>>31)^bit == 1 {
+		return c<<1 ^ 0x04c11db7
+	}
+	return c << 1
+}
+
+// specCRCBitsK feeds message bits k..j-1 (MSB first) of b into c.
+func specCRCBitsK(c uint32, b byte, j int, k int) uint32 {
+	if k == 8 {
+		return c
+	}
+	if k < j {
+		c = specCRCBit(c, uint32(b>>uint(7-k))&1)
+	}
+	return specCRCBitsK(c, b, j, k+1)
+}
+
+func specCRCBits(c uint32, b byte, j int) uint32 { return specCRCBitsK(c, b, j, 0) }
+func specCRCByte(c uint32, b byte) uint32        { return specCRCBitsK(c, b, 8, 0) }
+
+// specCRC(in, n): CRC of the first n bytes of in.
+func specCRC(in []byte, n int) uint32 {
+	if n <= 0 {
+		return 0xffffffff
+	}
+	return specCRCByte(specCRC(in, n-1), in[n-1])
+}
+
+//@ opaque specCRC
+
+// One augmentation step (a zero message bit shifted into the register), n of them, 32 of them.
+func specZ(c uint32) uint32 {
+	if c >= 0x80000000 {
+		return c<<1 ^ 0x04c11db7
+	}
+	return c << 1
+}
+
+func specZnK(c uint32, n int, k int) uint32 {
+	if k == 32 {
+		return c
+	}
+	if k < n {
+		c = specZ(c)
+	}
+	return specZnK(c, n, k+1)
+}
+
+func specZn(c uint32, n int) uint32 { return specZnK(c, n, 0) }
+func specZ32(c uint32) uint32       { return specZnK(c, 32, 0) }
+
+func specBE32(b []byte) uint32 {
+	return uint32(b[0])*16777216 + uint32(b[1])*65536 + uint32(b[2])*256 + uint32(b[3])
+}
+
+// The invariants relate the implementation's augmented register to the textbook register by
+// 32 zero-bit steps: specZ32(register) == textbook CRC of the bytes consumed so far.
+
+//@ func ComputeCRC(input []byte) []byte
+//@   props C13
+//@   ensures len(result) == 4 && fresh(result)
+//@   ensures specBE32(result) == specCRC(input, len(input))
+//@   modifies nothing
+//@   loop 1 (i int, crc uint32)
+//@     invariant 0 <= i && i <= len(input)
+//@     invariant specZ32(crc) == specCRC(input, i)
+//@     decreases len(input) - i
+//@   loop 2 (j int, crc uint32, i int, item uint32)
+//@     invariant 0 <= j && j <= 8
+//@     invariant specZ32(crc) == specCRCBits(specCRC(input, i), byte(item), j)
+//@     decreases 8 - j
+//@     split j in 0..8
+//@   loop 3 (i int, crc uint32)
+//@     invariant 0 <= i && i <= 32
+//@     invariant specZn(crc, 32-i) == specCRC(input, len(input))
+//@     decreases 32 - i
+//@     split i in 0..32
+
+// Residue: feeding a register's own big-endian bytes into it gives zero, hence
+// crc(m ++ ComputeCRC(m)) == 0, the validity condition receivers apply.
+func lemmaCRCResidue(c uint32) bool {
+	return specCRCByte(specCRCByte(specCRCByte(specCRCByte(c, byte(c>>24)), byte(c>>16)), byte(c>>8)), byte(c)) == 0
+}
+
+//@ func lemmaCRCResidue(c uint32) bool
+//@   props C13
+//@   ensures result
+
+func lemmaCRCAppend(s []byte, n int) bool {
+	c1 := specCRC(s, n+1)
+	c2 := specCRC(s, n+2)
+	c3 := specCRC(s, n+3)
+	c4 := specCRC(s, n+4)
+	return c1 == c1 && c2 == c2 && c3 == c3 && c4 == 0
+}
+
+//@ func lemmaCRCAppend(s []byte, n int) bool
+//@   props C13
+//@   requires 0 <= n && n+4 <= len(s) && n < 1<<30
+//@   requires specBE32(s[n:n+4]) == specCRC(s, n)
+//@   ensures result
+//@   modifies nothing
